@@ -12,6 +12,7 @@ from ..core import *
 from ..logic import *
 from ..e2 import *
 from .. import e2prog
+from .. import affine
 from ..report import Obl, Rule
 from .. import build
 
@@ -23,7 +24,7 @@ RULES = [
     Rule('C13.R4', 'format dispatch: container size == destination element size, selected converter applied, unsupported refused, converter ranges', 20),
     Rule('C13.R5', 'returned count equals the accumulated copied samples', 2),
     Rule('C13.R7', 'every chip wrapper fills its whole block on every path of nativeGenerateN (the buffered base copies the block out unconditionally)', 3),
-    Rule('C13.R6', 'frames generated and copied per period never exceed the frames left in the request', 4),
+    Rule('C13.R6', 'frames generated and copied per period never exceed the frames left in the request', 3),
 ]
 EXPLANATION = ('CFG dominance for the argument screening, interval abstract interpretation (E2) for the period clamp and the converter value ranges, and AST '
                'shape agreement for the copy-out arithmetic and the (sample type, container) dispatch table of SendStereoAudio (template arguments resolved '
@@ -66,10 +67,11 @@ def analyse(facts, tier):
         obls.append(Obl('C13.R1', fn.name, 'round down to even', first['loc'] if first else fn.loc, 'discharged' if even else 'finding',
                         why='first statement: sampleCount -= sampleCount % 2' if even else 'the request is not rounded down to an even sample count first'))
         writes = []
-        for b, j, st in cfg.stmts():
-            for x in calls_in(st['s']):
+        # also the calls a local helper makes on behalf of the function (arguments read in the caller's terms)
+        for b, j, st, s_, owner, bind in with_helpers(facts, fn):
+            for x in calls_in(s_):
                 if short(callee_name(x)) in ('memset', 'generate32', 'generateAndMix32', 'SendStereoAudio', 'Tick', 'TickIterators'):
-                    writes.append((b, j, st, x))
+                    writes.append((b, j, st, subst(x, bind) if bind else x))
         if len(writes) < 4:
             raise build.AnalysisBroken('C13: mix/copy calls not found in %s' % fn.name)
         bad = []
@@ -97,7 +99,16 @@ def analyse(facts, tier):
                     return V(min(c), max(c))
             return e_.ev_inner(e, st)
         def hook(e_, e, st):
+            inner = []
             for x in calls_in(e):
+                inner.append(x)
+                for cf in facts.fns.get(callee_name(x), [])[:1]:
+                    if is_local_helper(fn, cf) and not trange(cf.d.get('ret') or {}):
+                        # a void local helper: its calls count as calls of this function, with the parameters read as the arguments
+                        args = x.get('a') or []
+                        bind = {p_['id']: args[i_] for i_, p_ in enumerate(cf.params) if i_ < len(args)}
+                        inner += [subst(y, bind) for y in calls_in(cf.tree)]
+            for x in inner:
                 sn = short(callee_name(x))
                 if sn == 'memset' and len(x['a']) >= 3:
                     seen.append((x.get('ln'), 'memset of the mix buffer', signed_view(e_, x['a'][2], st), 1024 * 4))
@@ -218,15 +229,40 @@ def analyse(facts, tier):
     # helpers
     for hname in ('CopySamplesTransformed', 'CopySamplesRaw'):
         for h in facts.fns.get(hname, [])[:1]:
-            dsts, srcs = [], []
+            # parameters by position: destination left, destination right, source, frame count, stride; the addresses of the two
+            # stores of a round and of the two source reads as affine forms in the round counter (whatever it is called and however
+            # the address is spelled: p[k], *(p + k), a local pointer to the frame)
+            pn = [p_['n'] for p_ in h.params]
+            counter = None
+            loops_h = [x for x in walk(h.tree) if isinstance(x, dict) and x.get('k') in ('ForStmt', 'WhileStmt') and x.get('cond') is not None]
+            lp = False
+            for l_ in loops_h:
+                c_ = strip(l_['cond'])
+                if c_.get('k') == 'BinaryOperator' and c_.get('op') == '<' and strip(c_['l']).get('k') == 'DeclRefExpr' and strip(c_['r']).get('id') == h.params[3]['id']:
+                    counter = strip(c_['l'])
+                    lp = True
+            stores = []
             for b, j, st in h.cfg.stmts():
                 for x in walk(st['s']):
-                    ap = assign_parts(x)
-                    if ap:
-                        dsts.append(show(ap[0])); srcs.append(show(ap[1]))
-            ok = any('(i * sampleOffset)' in d and 'dstLeft' in d for d in dsts) and any('(i * sampleOffset)' in d and 'dstRight' in d for d in dsts) \
-                and any('src[(2 * i)]' in s_ for s_ in srcs) and any('src[((2 * i) + 1)]' in s_ for s_ in srcs)
-            lp = any(b.get('cond') is not None and show(b['cond']) == '(i < frameCount)' for b in h.d['blocks'])
+                    ap = assign_parts_raw(x)
+                    if ap and ap[2] == '=' and strip(ap[0]).get('k') in ('UnaryOperator', 'ArraySubscriptExpr'):
+                        stores.append((st, ap))
+            shapes = []
+            if counter is not None:
+                cn = counter['n']
+                for st, ap in stores:
+                    eng = affine.Affine(h, [], {})
+                    env = eng.run(lambda t, env_, e_, st=st: t is st['s'] or (isinstance(t, dict) and t.get('ln') == st['s'].get('ln') and show(t) == show(st['s'])))
+                    if env is None:
+                        continue
+                    dst = affine.address_form(eng, ap[0], env)
+                    reads = [y for y in walk(ap[1]) if isinstance(y, dict) and (y.get('k') == 'ArraySubscriptExpr' or (y.get('k') == 'UnaryOperator' and y.get('op') == '*'))]
+                    src = affine.address_form(eng, reads[0], env) if len(reads) == 1 else None
+                    shapes.append((dst, src))
+            stride = '*'.join(sorted((counter['n'], pn[4]))) if counter is not None else None
+            want = [(({pn[0]: 1, stride: 1}, 0), ({pn[2]: 1, counter['n']: 2}, 0)), (({pn[1]: 1, stride: 1}, 0), ({pn[2]: 1, counter['n']: 2}, 1))] if counter is not None else []
+            ok = counter is not None and len(shapes) == 2 and all(w in shapes for w in want)
+            dsts = [str(x) for x in shapes]
             # nothing else is written: every store to memory in the helper is one of the two strided stores
             other = []
             for b, j, st in h.cfg.stmts():
@@ -234,7 +270,7 @@ def analyse(facts, tier):
                     ap = assign_parts(x)
                     if ap and strip(ap[0]).get('k') in ('UnaryOperator', 'ArraySubscriptExpr', 'MemberExpr'):
                         d = show(ap[0])
-                        if not ('(i * sampleOffset)' in d and ('dstLeft' in d or 'dstRight' in d)):
+                        if not any(st is st_ for st_, ap_ in stores) or not ok:
                             other.append((st['loc'], d[:50]))
                 for x in calls_in(st['s']):
                     if short(callee_name(x)) in ('memcpy', 'memmove', 'memset', 'copy'):
@@ -496,7 +532,17 @@ def r6(facts):
                     i0 = strip(v.get('init')) if v.get('init') is not None else None
                     if i0 is not None and i0.get('k') == 'BinaryOperator' and i0['op'] == '/' and const_of(i0['r']) == 2 and short(strip(i0['l']).get('n', '')) == 'left':
                         ls = v
-        has_consumers = any(short(callee_name(x)) in ('generate32', 'generateAndMix32', 'SendStereoAudio') for b, ex, loc in fn.cfg.exprs() for x in calls_in(ex))
+        # a local helper that forwards one of its parameters as the frame count of the chips is a consumer of that argument
+        helper_probes = {}
+        for b, j, st in fn.cfg.stmts():
+            for x in calls_in(st['s']):
+                for cf in facts.fns.get(callee_name(x), [])[:1]:
+                    if is_local_helper(fn, cf):
+                        pidx = {p_['id']: i_ for i_, p_ in enumerate(cf.params)}
+                        for y in calls_in(cf.tree):
+                            if short(callee_name(y)) in ('generate32', 'generateAndMix32') and len(y.get('a', [])) >= 2 and strip(y['a'][1]).get('id') in pidx:
+                                helper_probes[short(cf.name)] = pidx[strip(y['a'][1])['id']]
+        has_consumers = any(short(callee_name(x)) in ('generate32', 'generateAndMix32', 'SendStereoAudio') or short(callee_name(x)) in helper_probes for b, ex, loc in fn.cfg.exprs() for x in calls_in(ex))
         if not has_consumers:
             continue        # sequencer compiled out: the function is a stub that returns 0
         if ls is None:
@@ -505,6 +551,7 @@ def r6(facts):
             continue
         bs = BufSize(fn, [], ls['id'])
         bs.probes = {'generate32': 1, 'generateAndMix32': 1, 'SendStereoAudio': 1}
+        bs.probes.update(helper_probes)
         bs.run()
         if not bs.probe_results:
             raise build.AnalysisBroken('C13.R6: generate / copy-out calls not found in %s' % name)
